@@ -172,3 +172,13 @@ package storage
 //@   ensures fresh(result) && len(result) == len(key)
 //@   ensures be32(result, len(key) - 9) == 0xFFFFFFFF && be32(result, len(key) - 5) == 0xFFFFFFFF && result[len(key) - 1] == 0xFF
 //@   ensures forall j int :: 0 <= j && j < len(key) - 9 ==> result[j] == key[j]
+
+// ---- order lemmas over whole keys (C06, C05, C19): range scans see exactly one instance ----
+
+//@ func verifLemmaInstanceKeysInRange
+//@   prop C06 C05 C19
+//@   lemma
+//@   requires uint32(i) < 0xFFFFFFFF
+//@   ensures c1 <= 0 && c2 < 0
+//@   ensures j < i ==> c3 < 0
+//@   ensures j > i ==> c4 > 0
